@@ -28,7 +28,7 @@ REQUIRED_OBS = ["segmentations_ok", "cuts_inside_header", "cuts_inside_crc", "by
                 "slow_subscriber_runs"]
 BUDGET = {"quick": 100, "thorough": 1500}
 
-GAPS = ["same_turn", "turn1", "turn3", "quiesce", "delay"]
+GAPS = ["same_turn", "turn1", "turn3", "quiesce", "delay", "long_delay"]
 
 
 def streams(gen):
@@ -80,6 +80,8 @@ def deliver(gen, stream, cuts, gap, debug=False, delays=None):
                 await quiesce(loop)
             elif gap == "delay":
                 await asyncio.sleep(0.25)
+            elif gap == "long_delay":
+                await asyncio.sleep(7.5)   # a stalled peer: still the same stream
         if delays:
             await asyncio.sleep(sum(delays) + 1.0)
         await quiesce(loop)
@@ -129,7 +131,7 @@ def cases(tier, seed):
             if not full:
                 continue
             ones = [[i] for i in range(1, n)]
-            for gap in (GAPS if tier == "thorough" else ["same_turn", "quiesce"]):
+            for gap in (GAPS if tier == "thorough" else ["same_turn", "quiesce", "long_delay"]):
                 for ch in _chunks(ones, 100):
                     yield {"k": "cuts", "gen": gen, "stream": sname, "gap": gap, "cuts": ch}
             twos = [list(c) for c in itertools.combinations(range(1, n), 2)]
